@@ -90,9 +90,21 @@ let show_view3 ((_, c), ids) = zs c ^ " " ^ zs ids
 let offcnt_sp s = match s with SRefuse -> SAny | x -> x
 
 let idx_list toks = fst (counted z_of_string toks)
+(* `cmd@route`: the same request through another public entry point - same model answer; only the default mode
+   depends on the route (deprecated util::retrieve* twins: Inclusive; everything else, members included: Exclusive) *)
+let unroute toks = match toks with
+  | c :: a :: m :: rest when OStr.contains c '@' ->
+    let k = OStr.index c '@' in
+    let cmd = OStr.sub c 0 k and route = OStr.sub c (k + 1) (OStr.length c - k - 1) in
+    let name = function RangeMatch_Inclusive -> "incl" | RangeMatch_Exclusive -> "excl" in
+    let deprecated = OStr.length route > 2 && OStr.sub route 0 2 = "r_" in
+    let m' = if m = "default" then name (if deprecated then default_match_deprecated else default_match_retrieval) else m in
+    cmd :: a :: m' :: rest
+  | _ -> toks
+
 let handle toks =
   let b = behaviour_used in
-  match toks with
+  match unroute toks with
   | ["reset"] ->
     OHashtbl.reset arrays; refs := []; feats := [];
     the_tag := { t_pos = []; t_ext = []; t_units = []; t_refs = []; t_feats = [] };
